@@ -402,6 +402,48 @@ def unit_generated(ctx, kind, n):
     draw_cases(strat, n, ctx.seed * 61 + len(kind), f)
 
 
+def check_reuse(ctx, cell, case):
+    """One constraint object applied to a sequence of inputs that differ in shape, dtype (real/complex) and scale: each result must be
+    bit-identical to what a fresh object returns for that input (the per-item laws are checked on fresh objects by the other units)."""
+    import torch
+    from kaira.constraints import utils as U
+    c = case["constraint"]
+    cell = cell or {"constraint": c, "mode": "object_reuse"}
+
+    def make():
+        if c == "factory_ofdm":
+            return U.create_ofdm_constraints(total_power=case["target"], max_papr=4.0, is_complex=True, peak_amplitude=None)
+        if c == "composite":
+            import kaira.constraints as K
+            return K.CompositeConstraint([K.PAPRConstraint(max_papr=3.0), K.TotalPowerConstraint(case["target"])])
+        return build(case)
+    con = make()
+    for i, inp in enumerate(case["inputs"]):
+        x = to_t(regenerate(inp))
+        ok, got = ctx.call(lambda: con(x), "C08.raises", cell, {**case, "failing_step": i}, checker="c08:check_reuse")
+        if not ok:
+            return
+        exp = make()(x)
+        ctx.ev()
+        ctx.check(got.shape == exp.shape and bool(torch.equal(got, exp)), "C08.j_object_reuse", cell, {**case, "failing_step": i}, None, None,
+                  "a constraint object that was used before answers differently from a fresh object with the same configuration", "c08:check_reuse")
+    ctx.nontrivial("reuse", c, str(case["inputs"]))
+    ctx.cls("reuse_histories")
+
+
+def unit_reuse(ctx, n):
+    inp = st.fixed_dictionaries({"shape": SHAPES.map(list), "family": st.sampled_from(FAMILIES), "complex": st.booleans(), "scale": SCALE, "seed": st.integers(0, 10 ** 6)})
+    strat = st.fixed_dictionaries({"constraint": st.sampled_from(["total", "average", "peak", "papr", "per_antenna_uniform", "composite", "factory_ofdm"]),
+                                   "target": st.sampled_from([0.5, 1.0, 4.0]), "inputs": st.lists(inp, min_size=2, max_size=5)})
+
+    def f(case):
+        case = dict(case)
+        if case["constraint"] == "per_antenna_uniform":
+            case["inputs"] = [{**i, "shape": ([2] + i["shape"]) if len(i["shape"]) < 3 else i["shape"]} for i in case["inputs"]]
+        check_reuse(ctx, None, case)
+    draw_cases(strat, n, ctx.seed * 67 + 5, f)
+
+
 def unit_boundary(ctx):
     """degenerate (B, A) per-antenna input: every (item, antenna) is one sample; its power must still be the budget."""
     case = {"constraint": "per_antenna_uniform", "target": 1.0, "shape": [3, 4], "family": "gaussian", "complex": False, "scale": 2.0, "seed": 5}
@@ -430,4 +472,5 @@ def units(tier, seed):
     us = [Unit(f"gen_{k}", "c08:unit_generated", {"kind": k, "n": n}, 4) for k in ("total", "average", "per_antenna", "peak", "papr", "composite", "factory_ofdm", "factory_mimo")]
     us.append(Unit("gen_total_2", "c08:unit_generated", {"kind": "total", "n": n}, 4))
     us.append(Unit("boundary", "c08:unit_boundary", {}, 1))
+    us.append(Unit("reuse", "c08:unit_reuse", {"n": 3000 if T else 120}, 3))
     return us
